@@ -57,6 +57,9 @@ func CheckC16(sc Scenario, rec *Rec) error {
 					return fmt.Errorf("innovation numbers (C03): %v", err)
 				}
 			}
+			if n := len(pop.Innovations()); n != 0 {
+				return fmt.Errorf("innovation numbers (C03): %d innovations are still recorded after the generation ended", n)
+			}
 			if distinct {
 				if err := champs.check(e, pop, sc.Opts.BabiesStolen, rec); err != nil {
 					return fmt.Errorf("champion preservation (C10): %v", err)
